@@ -212,6 +212,26 @@ def run(ctx):
       if np.allclose(np.asarray(rotated[i][1]['w']), np.asarray(rotated[j][1]['w'])):
         ctx.violation('rotation:tree-same-for-different-keys', f'keys {500 + i} and {500 + j} (fresh key objects, one after the other) rotate the tree identically', replay={'keys': [500 + i, 500 + j]})
         break
+  # ... and in a tight loop that keeps nothing alive, so that the interpreter hands the address of the dropped key to the next
+  # one (observed through id(), counted): the rotation is a function of the key's VALUE, whatever object carries it; raw
+  # uint32 keys given as jax and as NumPy arrays
+  for kind in ('jax', 'numpy'):
+    prev, reused, hit = None, 0, None
+    for seed_k in range(40):
+      key = jax.random.PRNGKey(900 + seed_k) if kind == 'jax' else np.array([0, 900 + seed_k], np.uint32)
+      kid = id(key)
+      w_rot = np.asarray(wh.structured_rotation_pytree(tree_f, key)[0]['w'])
+      if prev is not None and prev[0] == kid:
+        reused += 1
+        if hit is None and np.allclose(prev[1], w_rot):
+          hit = seed_k
+      prev = (kid, w_rot)
+      del key
+    nrot += 40
+    ctx.case(key=('tree-fresh-keys-tight-loop', kind), nontrivial=reused > 0)
+    if hit is not None:
+      ctx.violation('rotation:tree-same-for-different-keys', f'keys {900 + hit - 1} and {900 + hit} ({kind} arrays; the second object reuses the address of the dropped first) rotate the tree identically',
+                    replay={'keys': [900 + hit - 1, 900 + hit], 'kind': kind})
   for seed_k, rt, shapes_t in rotated:
     bk = wh.inverse_structured_rotation_pytree(rt, jax.random.PRNGKey(500 + seed_k), shapes_t)
     if not np.allclose(np.asarray(bk['w']), np.asarray(tree_f['w']), rtol=2e-5, atol=2e-6) or not np.allclose(np.asarray(bk['b']), np.asarray(tree_f['b']), rtol=2e-5, atol=2e-6):
